@@ -2,6 +2,7 @@ package main
 
 import (
 	"flag"
+	"strings"
 
 	"verif/harness/locks"
 )
@@ -11,11 +12,15 @@ func init() {
 		fs := flag.NewFlagSet("locks-run", flag.ExitOnError)
 		out := fs.String("out", "-", "report")
 		reps := fs.Int("reps", 1, "repetitions of every scenario")
+		only := fs.String("only", "", "run only the scenarios whose op is in this comma separated list")
 		fs.Parse(args)
 		var results []locks.Result
 		hung := 0
 		for rep := 0; rep < *reps; rep++ {
 			for _, sc := range locks.Scenarios() {
+				if *only != "" && !strings.Contains(","+*only+",", ","+sc.Op+",") {
+					continue
+				}
 				r := locks.Run(sc)
 				if !r.Returned {
 					// confirm on a second run before reporting
